@@ -1,1 +1,32 @@
-From Coq Require Import Reals.
+(* C10_seq.v — rotation / rot_seq: every path of the model equals the ordered product of elementary rotations. *)
+From Coq Require Import Reals List Lra.
+From AhrsLib Require Import Base Rot Atan2.
+From AhrsGen Require Import C10gen_R.
+From AhrsProps Require Import C10_defs.
+Import ListNotations.
+Open Scope R_scope.
+
+Lemma rotation_x_spec t : C10_rotation_x_R t = Val (Rx t).  Proof. unfold C10_rotation_x_R. seq_proof. Qed.
+Lemma rotation_y_spec t : C10_rotation_y_R t = Val (Ry t).  Proof. unfold C10_rotation_y_R. seq_proof. Qed.
+Lemma rotation_z_spec t : C10_rotation_z_R t = Val (Rz t).  Proof. unfold C10_rotation_z_R. seq_proof. Qed.
+
+Lemma rot_seq_x_spec t : C10_rot_seq_x_R t = Val (Rx t).  Proof. unfold C10_rot_seq_x_R. seq_proof. Qed.
+Lemma rot_seq_y_spec t : C10_rot_seq_y_R t = Val (Ry t).  Proof. unfold C10_rot_seq_y_R. seq_proof. Qed.
+Lemma rot_seq_z_spec t : C10_rot_seq_z_R t = Val (Rz t).  Proof. unfold C10_rot_seq_z_R. seq_proof. Qed.
+Lemma rot_seq_zx_spec a b : C10_rot_seq_zx_R a b = Val (mmul3 (Rz a) (Rx b)).  Proof. unfold C10_rot_seq_zx_R. seq_proof. Qed.
+Lemma rot_seq_xy_spec a b : C10_rot_seq_xy_R a b = Val (mmul3 (Rx a) (Ry b)).  Proof. unfold C10_rot_seq_xy_R. seq_proof. Qed.
+Lemma rot_seq_yy_spec a b : C10_rot_seq_yy_R a b = Val (mmul3 (Ry a) (Ry b)).  Proof. unfold C10_rot_seq_yy_R. seq_proof. Qed.
+Lemma rot_seq_zyx_spec a b c : C10_rot_seq_zyx_R a b c = Val (mmul3 (Rz a) (mmul3 (Ry b) (Rx c))).
+Proof. unfold C10_rot_seq_zyx_R. seq_proof. Qed.
+Lemma rot_seq_xyz_spec a b c : C10_rot_seq_xyz_R a b c = Val (mmul3 (Rx a) (mmul3 (Ry b) (Rz c))).
+Proof. unfold C10_rot_seq_xyz_R. seq_proof. Qed.
+Lemma rot_seq_zxz_spec a b c : C10_rot_seq_zxz_R a b c = Val (mmul3 (Rz a) (mmul3 (Rx b) (Rz c))).
+Proof. unfold C10_rot_seq_zxz_R. seq_proof. Qed.
+Lemma rot_seq_yxy_spec a b c : C10_rot_seq_yxy_R a b c = Val (mmul3 (Ry a) (mmul3 (Rx b) (Ry c))).
+Proof. unfold C10_rot_seq_yxy_R. seq_proof. Qed.
+
+Lemma seq3_SO3 A B C : SO3 A -> SO3 B -> SO3 C -> SO3 (mmul3 A (mmul3 B C)).
+Proof. intros HA HB HC. apply SO3_mul; [exact HA|apply SO3_mul; assumption]. Qed.
+
+Example seq_nonvacuous : mmul3 (Rz 0) (Rx 0) = I3 /\ e (Rz (PI / 2)) 3 = 1.
+Proof. split; [unfold Rz, Rx; unfold_rot; rewrite cos_0, sin_0; list_eq; ring | unfold Rz; cbv [e List.nth]; apply sin_PI2]. Qed.
